@@ -31,6 +31,21 @@ class C02Monitor(Monitor):
 
     def on_build(self, w):
         self.judged = 0
+        # number of exchangeable particles: the user's initial value, then accepted insertions minus deletions as
+        # seen in the atoms (not the code's own counter)
+        self.N_true = w.sc.get("params", {}).get("number_of_exchange_particles")
+        self.N_consistent = True
+
+    def on_trial(self, w, name, verdict, pre, post):
+        if self.N_true is None or not hasattr(w, "template"):
+            return
+        k = len(w.template)
+        dn = post["n"] - pre["n"]
+        if verdict is True and dn:
+            if k and dn % k == 0:
+                self.N_true += dn // k
+            else:
+                self.N_consistent = False
 
     def before_trial(self, w, name):
         self.E_pre = calcs.reference_energy(w.calc_spec, w.atoms)
@@ -88,7 +103,9 @@ class C02Monitor(Monitor):
                 return -dE / kT, "gc_no_exchange", scale
             if k == 0 or dn % k or abs(dn // k) != 1:
                 return None, "gc_multi", scale
-            N = int(self.N_pre)
+            if not self.N_consistent:
+                return None, "gc_untracked", scale
+            N = int(self.N_true)
             V = float(w.user["accessible_volume"])
             mu = float(w.user["chemical_potential"])
             lam3 = debroglie_cubed(float(w.template.get_masses().sum()), T)
